@@ -1,6 +1,7 @@
 import Uhppote.Gen.Types
 import Uhppote.Proofs.Text
 import Uhppote.Props.C15
+import Uhppote.Gen.Source
 /-! # C14 — JSON and text forms of the public types round-trip; bad text is rejected (partial)
 
 Leaf types on `List Char` (`Model.Text`, hand-modelled after the `String()` / parser and
@@ -116,5 +117,14 @@ example : parseHHmm ⟨24, 59, true⟩ "23:60".toList = none ∧ parseHHmm ⟨24
     parseHHmm ⟨24, 59, true⟩ "24:00".toList = some ⟨24, 0⟩ := by decide
 example : parseDate "2023-02-29".toList = none ∧ parseDate "2024-02-29".toList = some ⟨2024, 2, 29⟩ := by decide
 example : pinFromJSON "1000000".toList = none := by decide
+
+/-- no parser or formatter keeps anything between calls (a name table built on first use, a compiled pattern that only some entry point prepares): the package-level variables of the four packages (regenerated) are these ten - the
+    codec's patterns and kind table, the two card-format patterns, the bind-port mutex, `NOTIMEOUT` and three error
+    values - every one of them initialised when its package is loaded. A `sync.Once`, a lazily filled map or a cache
+    would have to appear here. -/
+theorem C14_package_state : Gen.Source.packageVars = ["encoding/UTO311-L0x/UT0311-L0x.go:var re", "encoding/UTO311-L0x/UT0311-L0x.go:var tBool,tByte,tUint16,…",
+    "encoding/UTO311-L0x/UT0311-L0x.go:var vre", "types/card-format.go:var w26", "types/card-format.go:var wAny",
+    "uhppote/UT0311.go:var NOTIMEOUT", "uhppote/UT0311.go:var guard", "uhppote/errors.go:var ErrIncorrectController",
+    "uhppote/errors.go:var ErrInvalidCard", "uhppote/errors.go:var ErrInvalidListenerAddress"] := by decide
 
 end Uhppote.Props.C14
